@@ -36,7 +36,7 @@ def gen_history(rng, nops):
             return L + rng.choice([1, 2, 3, 7, 31, 70] + ([500, 5000] if rng.random() < 0.05 else []))
         if r < 0.85:
             return max(0, L - 1)
-        return rng.choice(["max", "max-1"])
+        return rng.choice(["max", "max-1", 1 << 33, 1 << 33])
 
     if rng.random() < 0.02:
         # large-array phase: capacity beyond 8192 slots, then puts landing between 1x and 2.2x the capacity
@@ -62,13 +62,13 @@ def gen_history(rng, nops):
             c, u = newelem()
             i = idx_choice(L)
             ops.append((c + ["APUT 0 %s 1" % i], ("put", i, u)))
-            if isinstance(i, int):
+            if isinstance(i, int) and i < (1 << 33):
                 model_len[0] = max(L, i + 1)
         elif r < 0.62:
             c, u = newelem()
             i = idx_choice(L)
             ops.append((c + ["AINS 0 %s 1" % i], ("ins", i, u)))
-            if isinstance(i, int):
+            if isinstance(i, int) and i < (1 << 33):
                 model_len[0] = max(L + 1, i + 1) if i < L else max(L, i + 1)
         elif r < 0.8:
             i = rng.choice([0, 1, max(0, L - 1), L, L + 1, "max", rng.randrange(L + 1)])
@@ -94,6 +94,8 @@ def realize(ops, rng):
     model = []
     SM = (1 << 64) - 1
 
+    BIG = 1 << 33   # 2^33 slots = 64 GiB: legal arithmetic, but no allocator here grants it (ASan caps single allocations at 4 GiB): the operation must fail cleanly
+
     def num(i):
         return SM if i == "max" else SM - 1 if i == "max-1" else i
 
@@ -107,7 +109,7 @@ def realize(ops, rng):
             exp.update(ret=0, dels=[])
         elif k in ("put", "ins"):
             i, u = num(d[1]), d[2]
-            if i >= SM - 1:
+            if i >= SM - 1 or i >= BIG:
                 exp.update(ret=-1, dels=[], failed_elem=u)
             elif k == "ins" and i < len(model):
                 model.insert(i, u)
@@ -285,6 +287,8 @@ def shard_fn(shard, nshards, seed, tier, exe, nhist):
                 bl = [l for c, l in zip(ccmds, chunk) if c.startswith("ABS")][0]
                 if int(bl.split()[1]) != exp["found"]:
                     key, what = "bsearch", "bsearch returned uid %s, model says %s" % (bl.split()[1], exp["found"])
+                elif bl.split()[2] != "keyfirst_violations=0":
+                    key, what = "bsearch-comparator-arguments", "the comparator was called with a member (not the key) as its first argument: %s" % bl
             elif k == "get":
                 g = opline.split()
                 got = None if g[2] == "1" else int(g[1])
@@ -326,6 +330,7 @@ def run(tier, seed):
     bdir = build.build("asan")
     chk = core.Check(PID, tier, seed)
     rd = core.record_dir(PID) if tier == "thorough" else None
+    os.environ["VF_RECORD_SKIP"] = r" 8589934592 "   # (the uninstrumented build under memcheck might really be granted 64 GiB of address space)
     sh = core.parallel(shard_fn, seed=seed, tier=tier, exe=bdir + "/jcdrv", nhist=32000 if tier == "quick" else 300000)
     chk.absorb(sh)
     if rd:
